@@ -143,10 +143,10 @@ Proof.
 Qed.
 
 Lemma fetched_idem x s : fetched (fetched x s) s = fetched x s.
-Proof. unfold fetched; cbn [g have tip revno tags conf locked rlocked knit signed]. rewrite merge_idem. reflexivity. Qed.
+Proof. unfold fetched; cbn [g have tip revno tags conf locked rlocked knit signed mine]. rewrite merge_idem. reflexivity. Qed.
 
 Lemma fetched_set_tip_idem x s n : fetched (set_tip (fetched x s) s n) s = set_tip (fetched x s) s n.
-Proof. unfold set_tip, fetched; cbn [g have tip revno tags conf locked rlocked knit signed]. rewrite merge_idem. reflexivity. Qed.
+Proof. unfold set_tip, fetched; cbn [g have tip revno tags conf locked rlocked knit signed mine]. rewrite merge_idem. reflexivity. Qed.
 
 (* ---- tags and config: what is set is what is read ---- *)
 
@@ -195,10 +195,12 @@ Qed.
 (* a branch lock left behind (repository free) refuses every branch write and leaves the
    repository free: nothing else becomes locked by a failed attempt *)
 Theorem stale_lock_refusals_leave_repository_free c x o r x1 ob x2 :
-  locked x = false -> step c x StaleLock = (r, x1) -> mutating o = true -> step c x1 o = (ob, x2) ->
+  locked x = false -> mine x = false ->
+  step c x StaleLock = (r, x1) -> mutating o = true -> step c x1 o = (ob, x2) ->
   ob = OE "LockContention"%string /\ x2 = x1 /\ rlocked x2 = false /\ locked x2 = true.
 Proof.
-  intros L H M H2. unfold step in H. cbn [mutating andb needs_vfs] in H. rewrite L in H. cbn in H.
+  intros L Mn H M H2. unfold step in H. cbn [mutating andb needs_vfs] in H. rewrite L in H. cbn in H.
+  rewrite Mn in H.
   injection H as _ <-. rewrite (locked_refuses_pre c (with_locks x true false) o (eq_refl true) M) in H2. injection H2 as <- <-.
   repeat split; reflexivity.
 Qed.
@@ -303,6 +305,7 @@ Proof.
       rewrite (distance_unfold _ _ W') by (rewrite app_length; cbn; lia).
       rewrite parents_new. rewrite H. reflexivity.
   - destruct (aget t (tags x)); exact C.
+  - destruct (mine x); exact C.
   - destruct (locked x); exact C.
   - destruct (memb r (have x)); exact C.
   - destruct (index_of r (lefthand_opt (g x) (tip x))); exact C.
@@ -311,9 +314,12 @@ Proof.
     destruct (memb r (have x)); [|exact C].
     destruct (distance_to_null (g x) r) as [n|] eqn:E; [|exact C].
     apply consistent_set_tip; [exact (proj1 C) | exact E].
+  - destruct (mine x); exact C.
   - (* Sign *)
     destruct (rlocked x); [exact C|]. destruct (knit x && remote c && negb (vfs c)); [exact C|].
     destruct (all_present (have x) rs); [exact C|]. destruct (knit x); exact C.
+  - destruct (locked x); exact C.
+  - destruct (mine x); exact C.
 Qed.
 
 Theorem run_consistent c : forall ops x, consistent x -> consistent (final c x ops).
@@ -341,16 +347,20 @@ Proof.
   - destruct (rlocked x); [intros [= _ <-]; left; reflexivity | discriminate].
   - unfold next_fresh. destruct (fresh_next (g x)); [discriminate | intros [= _ <-]; left; reflexivity].
   - destruct (aget t (tags x)); [discriminate | intros [= _ <-]; left; reflexivity].
+  - destruct (mine x); [intros [= _ <-]; left; reflexivity | discriminate].
   - destruct (locked x); discriminate.
   - destruct (memb r (have x)); [discriminate | intros [= _ <-]; left; reflexivity].
   - destruct (index_of r (lefthand_opt (g x) (tip x))); [discriminate | intros [= _ <-]; left; reflexivity].
   - destruct (memb r (have x)); [discriminate | intros [= _ <-]; left; reflexivity].
   - destruct (memb r (have x)); [|intros [= _ <-]; left; reflexivity].
     destruct (distance_to_null (g x) r); [discriminate | intros [= _ <-]; left; reflexivity].
+  - destruct (mine x); [intros [= _ <-]; left; reflexivity | discriminate].
   - destruct (rlocked x); [intros [= _ <-]; left; reflexivity|].
     destruct (knit x && remote c && negb (vfs c)); [intros [= _ <-]; left; reflexivity|].
     destruct (all_present (have x) rs); [discriminate|].
     destruct (knit x) eqn:K; intros [= _ <-]; [right; right; exists rs; auto | left; reflexivity].
+  - destruct (locked x); [intros [= _ <-]; left; reflexivity | discriminate].
+  - destruct (mine x); discriminate.
 Qed.
 
 Theorem locked_refuses c x o :
